@@ -25,6 +25,7 @@ type Clause struct {
 	Expr  ast.Expr
 	Props []string
 	Line  string // file:line
+	Label string // stable obligation label (inherited interface clauses); empty: positional
 }
 
 type LoopContract struct {
@@ -53,6 +54,9 @@ type FuncContract struct {
 	Line       string
 	Ghost      []string
 	Appends    []*AppendClause
+	Auto       bool      // synthesised for an implementer of a contracted interface
+	RefinePre  []*Clause // interface preconditions that must imply this contract's own preconditions
+	Inherited  []string  // interface methods whose clauses were inherited
 }
 
 type AppendClause struct {
@@ -117,7 +121,131 @@ func loadContracts(L *Loaded) *ContractDB {
 			db.parseFile(name, f)
 		}
 	}
+	db.inheritIfaces()
 	return db
+}
+
+// inheritIfaces: behavioural subtyping. Every method of a repo type that implements a contracted interface
+// inherits the interface method's clauses (self = receiver): ensures are added as obligations of the
+// implementer, requires become its preconditions unless it declares weaker ones of its own (then
+// "interface requires ==> own requires" is an obligation). Implementers without a contract get one synthesised,
+// so a call on an unknown dynamic type is sound for every dynamic type the library can produce.
+func (db *ContractDB) inheritIfaces() {
+	L := db.L
+	var inames []string
+	for n := range db.Ifaces {
+		inames = append(inames, n)
+	}
+	sort.Strings(inames)
+	for _, iname := range inames {
+		ic := db.Ifaces[iname]
+		dot := strings.Index(iname, ".")
+		ipkg := L.SSAPkgs[iname[:dot]]
+		if ipkg == nil {
+			db.errf(iname, "interface contract for unknown package")
+			continue
+		}
+		obj := ipkg.Pkg.Scope().Lookup(iname[dot+1:])
+		if obj == nil {
+			db.errf(iname, "contract drift: no interface %s", iname)
+			continue
+		}
+		it, ok := obj.Type().Underlying().(*types.Interface)
+		if !ok {
+			db.errf(iname, "contract drift: %s is not an interface", iname)
+			continue
+		}
+		var pnames []string
+		for n := range L.SSAPkgs {
+			pnames = append(pnames, n)
+		}
+		sort.Strings(pnames)
+		for _, pn := range pnames {
+			sp := L.SSAPkgs[pn]
+			scope := sp.Pkg.Scope()
+			names := scope.Names()
+			for _, tn := range names {
+				tobj, ok := scope.Lookup(tn).(*types.TypeName)
+				if !ok || tobj.IsAlias() {
+					continue
+				}
+				if _, isI := tobj.Type().Underlying().(*types.Interface); isI {
+					continue
+				}
+				pt := types.NewPointer(tobj.Type())
+				if !types.Implements(pt, it) {
+					continue
+				}
+				var mnames []string
+				for m := range ic.Methods {
+					mnames = append(mnames, m)
+				}
+				sort.Strings(mnames)
+				for _, mn := range mnames {
+					mc := ic.Methods[mn]
+					sel := L.Prog.MethodSets.MethodSet(pt).Lookup(sp.Pkg, mn)
+					if sel == nil {
+						continue
+					}
+					fn := L.Prog.MethodValue(sel)
+					if fn == nil || fn.Blocks == nil {
+						continue
+					}
+					fc := db.Funcs[fn]
+					if fc == nil {
+						fc = &FuncContract{Ref: "(*" + tn + ")." + mn, Pkg: pn, Fn: fn, Loops: map[int]*LoopContract{}, Line: mc.Line + " (inherited)", Auto: true, Props: mc.Props}
+						for i, p := range fn.Params {
+							nm := p.Name()
+							if i == 0 {
+								nm = "self"
+							} else if i-1 < len(mc.Params) {
+								nm = mc.Params[i-1]
+							}
+							fc.Params = append(fc.Params, nm)
+						}
+						fc.Results = append([]string{}, mc.Results...)
+						db.Funcs[fn] = fc
+						db.ByRef[pn+"."+fc.Ref] = fc
+						db.Order = append(db.Order, fc)
+					} else {
+						if len(fc.Results) != len(mc.Results) {
+							db.errf(fc.Line, "contract of %s must bind the interface's result names %v", fc.Ref, mc.Results)
+							continue
+						}
+						for i := range mc.Results {
+							if fc.Results[i] != mc.Results[i] {
+								db.errf(fc.Line, "contract of %s must bind the interface's result names %v", fc.Ref, mc.Results)
+							}
+						}
+						for _, p := range mc.Props {
+							if !hasProp(fc.Props, p) {
+								fc.Props = append(fc.Props, p)
+							}
+						}
+					}
+					label := func(kind string, j int) string { return fmt.Sprintf("%s.%s.%s%d", iname, mn, kind, j+1) }
+					if len(fc.Requires) == 0 {
+						for j, r := range mc.Requires {
+							c := *r
+							c.Label = label("pre", j)
+							fc.Requires = append(fc.Requires, &c)
+						}
+					} else {
+						fc.RefinePre = append(fc.RefinePre, mc.Requires...)
+					}
+					for j, en := range mc.Ensures {
+						c := *en
+						c.Label = label("post", j)
+						if c.Props == nil {
+							c.Props = mc.Props
+						}
+						fc.Ensures = append(fc.Ensures, &c)
+					}
+					fc.Inherited = append(fc.Inherited, iname+"."+mn)
+				}
+			}
+		}
+	}
 }
 
 func (db *ContractDB) errf(line, format string, a ...interface{}) {
@@ -603,6 +731,20 @@ type Env struct {
 	assuming bool
 	guard    *Term
 	negated  bool
+	// sink: state that receives axioms instantiated during evaluation (sum unfoldings, bounds); defaults to st.
+	// old(...) evaluates in the entry snapshot but instantiates into the current state.
+	sink *State
+	// skolems: indices at which universally quantified goals (allwf) were skolemised while evaluating a
+	// consequent; instAt: indices at which a universal HYPOTHESIS (antecedent position) is instantiated.
+	skolems *[]*Term
+	instAt  []*Term
+}
+
+func (e *Env) factState() *State {
+	if e.sink != nil {
+		return e.sink
+	}
+	return e.st
 }
 
 func (e *Env) bind(name string, v Value, t types.Type) { e.vars[name] = tv{v, t} }
@@ -644,6 +786,11 @@ func (ex *Exec) frameEnv(st *State, fr *Frame) *Env {
 			if i < len(fn.Params) {
 				env.bind(n, fr.regs[fn.Params[i]], fn.Params[i].Type())
 			}
+		}
+	}
+	if fn.Signature.Recv() != nil && len(fn.Params) > 0 {
+		if _, ok := env.vars["self"]; !ok {
+			env.bind("self", fr.regs[fn.Params[0]], fn.Params[0].Type())
 		}
 	}
 	// source names of parameters too (unless shadowed by binders)
@@ -1164,9 +1311,27 @@ func (e *Env) callExpr(n *ast.CallExpr) tv {
 				evalFail("old() outside a two-state context in %q", e.in)
 			}
 			o := e.withState(e.old)
+			o.sink = e.factState()
 			o.old = nil
+			o.assuming = false
 			return o.eval(n.Args[0])
 		case "imp":
+			if !e.assuming && !e.negated {
+				// goal position: evaluate the consequent first, then instantiate universal hypotheses of the
+				// antecedent at the consequent's skolem indices (a sound weakening of the hypothesis)
+				var sk []*Term
+				cons := *e
+				cons.skolems = &sk
+				bT := cons.boolArg(n.Args[1])
+				ant := *e
+				ant.negated = true
+				ant.instAt = sk
+				aT := ant.boolArg(n.Args[0])
+				if e.skolems != nil {
+					*e.skolems = append(*e.skolems, sk...)
+				}
+				return tv{VBool{Implies(aT, bT)}, types.Typ[types.Bool]}
+			}
 			a := e.boolArg(n.Args[0])
 			if a.IsFalse() {
 				return tv{VBool{True}, types.Typ[types.Bool]}
@@ -1179,6 +1344,12 @@ func (e *Env) callExpr(n *ast.CallExpr) tv {
 			return tv{VBool{Implies(a, e.boolArg(n.Args[1]))}, types.Typ[types.Bool]}
 		case "ite":
 			c := e.boolArg(n.Args[0])
+			if c.IsTrue() {
+				return e.eval(n.Args[1])
+			}
+			if c.IsFalse() {
+				return e.eval(n.Args[2])
+			}
 			a := e.eval(n.Args[1])
 			b := e.eval(n.Args[2])
 			a, b = unify(a, b)
@@ -1270,6 +1441,13 @@ func (e *Env) callExpr(n *ast.CallExpr) tv {
 			return tv{VInt{Ite(lt, a.v.(VInt).T, b.v.(VInt).T)}, a.t}
 		case "sum":
 			return e.sumExpr(n)
+		case "allwf":
+			a := e.eval(n.Args[0])
+			sl, ok := a.v.(VSlice)
+			if !ok {
+				evalFail("allwf over non-slice in %q", e.in)
+			}
+			return tv{VBool{e.allWF(sl, a.t.Underlying().(*types.Slice).Elem())}, types.Typ[types.Bool]}
 		case "bbytes_eq", "bzero":
 			return e.bufBytesEq(id.Name, n)
 		case "sbytes_eq":
@@ -1386,16 +1564,40 @@ func (e *Env) specApply(name string, specs []*SpecFunc, args []tv) tv {
 			a0 = tv{iv.Val, iv.Dyn}
 		} else {
 			if iv.ID == nil {
+				if strings.HasPrefix(name, "wf") {
+					return tv{VBool{False}, types.Typ[types.Bool]}
+				}
+				if name == "size" {
+					return tv{VInt{Const(64, 0)}, types.Typ[types.Int]} // convention: an absent child occupies no bytes
+				}
 				evalFail("spec %s applied to nil interface in %q", name, e.in)
 			}
 			// abstract: uninterpreted function of the identity
 			rs := e.ex.L.Contracts.specResultSort(name)
 			t := App("spec:"+name, rs, iv.ID)
+			if strings.HasPrefix(name, "wf") {
+				return tv{VBool{And(Not(nilT(iv.Nil)), t)}, types.Typ[types.Bool]}
+			}
 			if rs.K == SBV {
-				e.st.assume(ULe(t, Const(64, 1<<50)))
+				e.factState().assume(ULe(t, Const(64, 1<<50)))
 				return tv{VInt{t}, types.Typ[types.Int]}
 			}
 			return tv{VBool{t}, types.Typ[types.Bool]}
+		}
+	}
+	if strings.HasPrefix(name, "wf") {
+		if p, ok := a0.v.(VPtr); ok && a0.t != nil {
+			if _, isPtr := a0.t.Underlying().(*types.Pointer); isPtr {
+				if p.Obj == 0 && p.Global == nil {
+					return tv{VBool{False}, types.Typ[types.Bool]}
+				}
+				if p.Nil != nil && !p.Nil.IsFalse() {
+					q := p
+					q.Nil = nil
+					r := e.specApply(name, specs, append([]tv{{q, a0.t}}, args[1:]...))
+					return tv{VBool{And(Not(p.Nil), r.v.(VBool).T)}, types.Typ[types.Bool]}
+				}
+			}
 		}
 	}
 	for _, sf := range specs {
@@ -1403,7 +1605,7 @@ func (e *Env) specApply(name string, specs []*SpecFunc, args []tv) tv {
 			continue
 		}
 		if a0.t != nil && types.Identical(sf.PTypes[0], a0.t) {
-			sub := &Env{ex: e.ex, st: e.st, old: e.old, vars: map[string]tv{}, pkg: e.ex.L.SSAPkgs[sf.Pkg].Pkg, in: sf.Body.Text}
+			sub := &Env{ex: e.ex, st: e.st, old: e.old, sink: e.sink, assuming: e.assuming, guard: e.guard, negated: e.negated, skolems: e.skolems, instAt: e.instAt, vars: map[string]tv{}, pkg: e.ex.L.SSAPkgs[sf.Pkg].Pkg, in: sf.Body.Text}
 			sub.bind(sf.Params[0], a0.v, a0.t)
 			for i := 1; i < len(args); i++ {
 				sub.bind(sf.Params[i], args[i].v, sf.PTypes[i])
@@ -1415,7 +1617,7 @@ func (e *Env) specApply(name string, specs []*SpecFunc, args []tv) tv {
 			if pt, ok := sf.PTypes[0].(*types.Pointer); ok && types.Identical(pt.Elem(), a0.t) {
 				// spec wants pointer, we have a struct value: box it in a temporary cell
 				p := e.st.allocCell(a0.v, true, "spec-tmp")
-				sub := &Env{ex: e.ex, st: e.st, old: e.old, vars: map[string]tv{}, pkg: e.ex.L.SSAPkgs[sf.Pkg].Pkg, in: sf.Body.Text}
+				sub := &Env{ex: e.ex, st: e.st, old: e.old, sink: e.sink, assuming: e.assuming, guard: e.guard, negated: e.negated, skolems: e.skolems, instAt: e.instAt, vars: map[string]tv{}, pkg: e.ex.L.SSAPkgs[sf.Pkg].Pkg, in: sf.Body.Text}
 				sub.bind(sf.Params[0], p, sf.PTypes[0])
 				for i := 1; i < len(args); i++ {
 					sub.bind(sf.Params[i], args[i].v, sf.PTypes[i])
@@ -1455,6 +1657,9 @@ func (e *Env) sumExpr(n *ast.CallExpr) tv {
 	return tv{VInt{e.sumTerm(s, et, k)}, types.Typ[types.Int]}
 }
 
+// sumSeqs: sequences over which sum() has been used in the current verification (id -> slice length).
+var sumSeqs = map[int]*Term{}
+
 func (e *Env) sumTerm(s VSlice, et types.Type, k *Term) *Term {
 	if s.Obj == 0 {
 		return Const(64, 0)
@@ -1467,8 +1672,11 @@ func (e *Env) sumTerm(s VSlice, et types.Type, k *Term) *Term {
 		evalFail("sum over re-sliced sequence in %q", e.in)
 	}
 	fname := fmt.Sprintf("sum:seq%d", o.Seq.id)
+	if _, ok := sumSeqs[o.Seq.id]; !ok {
+		sumSeqs[o.Seq.id] = s.Len
+	}
 	t := App(fname, BV(64), k)
-	st := e.st
+	st := e.factState()
 	st.assume(Eq(App(fname, BV(64), Const(64, 0)), Const(64, 0)))
 	total := App(fname, BV(64), s.Len)
 	st.assume(ULe(total, Const(64, 1<<50)))
@@ -1488,6 +1696,80 @@ func (e *Env) sumTerm(s VSlice, et types.Type, k *Term) *Term {
 		}
 	}
 	return t
+}
+
+// wfOf evaluates wf(v) for a value of static type t through the user's wf specs (abstract interfaces:
+// uninterpreted predicate of the identity, implying non-nil).
+func (e *Env) wfOf(v Value, t types.Type) *Term {
+	specs := e.ex.L.Contracts.Specs["wf"]
+	r := e.specApply("wf", specs, []tv{{v, t}})
+	b, ok := r.v.(VBool)
+	if !ok {
+		evalFail("wf is not boolean")
+	}
+	return b.T
+}
+
+// allWF: every element of the slice satisfies wf. Assumed: recorded on the sequence and instantiated at every
+// element read (and for elements already materialised). Proved: at a skolem index.
+func (e *Env) allWF(s VSlice, et types.Type) *Term {
+	if s.Obj == 0 {
+		return True
+	}
+	o := e.st.heap[s.Obj]
+	if o == nil || o.Kind != okSeq {
+		evalFail("allwf over non-sequence object in %q", e.in)
+	}
+	if !s.Off.IsConst() || s.Off.Val != 0 {
+		evalFail("allwf over re-sliced sequence in %q", e.in)
+	}
+	if e.negated {
+		// hypothesis position: finitely many instances
+		r := True
+		for _, k := range e.instAt {
+			r = And(r, Implies(ULt(k, s.Len), e.seqWFAt(o, k, len(o.Seq.entries)-1, et)))
+		}
+		return r
+	}
+	if e.assuming {
+		hi := Ite(e.guard, s.Len, Const(64, 0))
+		c := *o
+		q := *o.Seq
+		if q.allWF != nil {
+			hi = Ite(ULt(q.allWF, hi), hi, q.allWF)
+		}
+		q.allWF = hi
+		c.Seq = &q
+		e.st.heap[s.Obj] = &c
+		fs := e.factState()
+		for _, me := range append(append([]seqEntry{}, q.entries...), q.memo...) {
+			fs.assume(Implies(ULt(me.idx, hi), e.wfOf(me.val, et)))
+		}
+		return True
+	}
+	k := Fresh("allwf_k", BV(64))
+	if e.skolems != nil {
+		*e.skolems = append(*e.skolems, k)
+	}
+	return Implies(ULt(k, s.Len), e.seqWFAt(o, k, len(o.Seq.entries)-1, et))
+}
+
+// seqWFAt: wf of the element at symbolic index k, by cases over the stored entries, then the base.
+func (e *Env) seqWFAt(o *Object, k *Term, upto int, et types.Type) *Term {
+	q := o.Seq
+	for i := upto; i >= 0; i-- {
+		en := q.entries[i]
+		return Ite(Eq(en.idx, k), e.wfOf(en.val, et), e.seqWFAt(o, k, i-1, et))
+	}
+	if q.zero {
+		return False
+	}
+	base := e.st.seqReadFrom(o, k, -1)
+	w := e.wfOf(base, et)
+	if q.allWF != nil {
+		return Or(ULt(k, q.allWF), w)
+	}
+	return w
 }
 
 func (e *Env) bytesEq(n *ast.CallExpr) tv {
